@@ -185,6 +185,11 @@ structure Bld where
   cur : Nat := 0
   /-- the type of each variable (`Variable.getType()`) -/
   varTys : List Ty := []
+  /-- GHOST (not in the Go code, not printed, never read by the translation): the values `findValue` created to stand
+  for a variable at the ENTRY of a block - `(block, variable, value)` - i.e. the placeholders of unsealed blocks and
+  the temporary values of sealed blocks with several predecessors.  Used only to build the certificate of
+  `Wz.Model.FrontendCFCheck`. -/
+  ents : List (Nat × Nat × TV) := []
 deriving DecidableEq, Repr, Inhabited
 
 def modAt {α} (l : List α) (i : Nat) (f : α → α) : List α :=
@@ -259,14 +264,14 @@ def findValue : Nat → Bld → Nat → Ty → Nat → TV × Bld
       if !B.sealed then
         let v : TV := (b.next, ty)
         (v, { b.modBlk blk (fun B => { B with defs := (var, v) :: B.defs, unknown := B.unknown ++ [(var, v)] })
-              with next := b.next + 1 })
+              with next := b.next + 1, ents := (blk, var, v) :: b.ents })
       else if blk = 0 then (((b.zeros.get ty).getD 0, ty), b)
       else
         match B.singlePred with
         | some p => findValue fuel b var ty p
         | none =>
           let tmp : TV := (b.next, ty)
-          let b1 := { b.define var tmp blk with next := b.next + 1 }
+          let b1 := { b.define var tmp blk with next := b.next + 1, ents := (blk, var, tmp) :: b.ents }
           let fv := fun (b : Bld) (p : Nat) => findValue fuel b var ty p
           match uniqueLoop fv B.preds none b1 with
           | (some u, b2) => (u, { b2 with aliases := b2.aliases ++ [(tmp.1, u.1)] })
